@@ -141,6 +141,20 @@ fn main() {
             eprintln!("HARNESS ERROR: replay of {} in a fresh process did not reproduce the violation: exit={:?}; stdout tail: {}", path, out.status.code(), stdout.lines().rev().take(6).collect::<Vec<_>>().join(" | "));
             std::process::exit(2);
         }
+        Some("dump-case") => {
+            // rainsim dump-case <PROPERTY> <quick|thorough> <run index> <out file> : write the case
+            // the batch would execute at that index as a replay file (for diagnosis)
+            let prop = args.get(2).unwrap_or_else(|| usage());
+            let tier = if args.get(3).map(|s| s.as_str()) == Some("thorough") { Tier::Thorough } else { Tier::Quick };
+            let i: u64 = args.get(4).and_then(|s| s.parse().ok()).unwrap_or_else(|| usage());
+            let out = args.get(5).unwrap_or_else(|| usage());
+            let spec = checks::spec_for(prop).unwrap_or_else(|| usage());
+            let rs = batch::run_seed(batch::env_seed(), spec.prop, i);
+            let case = (spec.gen)(rs, i, tier);
+            let rf = report::ReplayFile { property: prop.clone(), signature: String::new(), class: String::new(), detail: "dumped case".into(), case, trace: vec![], digest: 0, shrink: None };
+            std::fs::write(out, serde_json::to_string_pretty(&rf).unwrap()).expect("write");
+            std::process::exit(0);
+        }
         Some("exec-case") => {
             // child mode: one case on stdin, its result as one "RESULT <json>" line on stdout
             let mut input = String::new();
